@@ -8,6 +8,7 @@ MODULES = {
     "C11": "harness.c11_per",
     "C18": "harness.c18_rainbow",
     "C08": "harness.c08_bellman",
+    "C06": "harness.c06_hpmut",
 }
 
 TECH = "symbolic execution of the real Python functions on z3-backed proxies (re-execution path exploration); each obligation decided per path by z3 as pc ∧ assumptions ∧ ¬obligation; sat models replayed on the real code"
@@ -34,6 +35,11 @@ CLAIMED = {
         "level_note": NOTE + "; support grids are chosen with exactly representable delta_z (float rounding of b=(Tz-v_min)/delta_z is outside the claim)",
         "technique": TECH,
     },
+    "C06": {
+        "level_text": "bounded symbolic verification of the real Mutations.rl_hyperparam_mutation -> HyperparameterConfig.sample -> RLParameter.mutate -> reinit_opt -> OptimizerWrapper/torch.optim.Adam on real agents built by the real create_population (DQN, DDPG; thorough: TD3, PPO, MADDPG; initial population sharing one config object, and a population of clones): for all current values in range, min, max, shrink, grow (float hyper-parameters; integer ones with the default factors), uniform and permutation draws, over 2(3) agents mutated in turn (and one agent twice): exactly one configured attribute changes, to dtype(clip(own value * factor)), inside [min,max]; a mutated learning rate is the lr of every param group of every optimizer the algorithm steps with it, other optimizers and all other agents' values and optimizer lrs do not move",
+        "level_note": NOTE + "; which optimizers step with which learning-rate attribute is taken from the algorithms' constructors (harness table)",
+        "technique": TECH,
+    },
     "C08": {
         "level_text": "bounded symbolic verification of the real learn()/update()/_learn_individual() of DQN (plain, double), CQN, DDPG, TD3, MADDPG, MATD3 on real agents with stub networks (uninterpreted functions of their inputs): for all rewards, done flags, actions, network outputs, policy noise, gamma and learn counters at batch<=2(3), actions<=2(3), agents<=2(3): the pair handed to the criterion is (Q(s,a_taken), r+gamma(1-d)V') with V' = max / double-argmax / clipped-noisy-target-action / min of twin target critics / centralised critic over all agents with agent i's own reward and done; done transitions ignore the next observation; soft updates and actor steps happen exactly on policy-delay steps for every (net,target) pair; and the REAL soft_update of DQN, CQN, RainbowDQN, DDPG, TD3, MADDPG, MATD3 on the agents' real networks (fresh and cloned) with symbolic tau sets every tensor held by the target to tau*online+(1-tau)*previous (in-place writes into real tensors captured in a shadow store) and leaves the online network untouched",
         "level_note": NOTE + "; Rainbow's loss algebra is C18; weights on real networks are concrete seeded values (symbolic weights only on stub networks); chaining of soft updates is by induction over the one-step identity",
@@ -55,4 +61,4 @@ NOT_APPLICABLE = {
 
 # designed in DESIGN.md §5 but the check is not built/registered yet (moves to CLAIMED when it lands)
 PENDING = {pid: "solver-based check designed (DESIGN.md §5) but not yet built in this tree; not claimed until it is"
-           for pid in ["C03", "C04", "C05", "C06", "C12", "C13", "C14", "C15", "C16", "C19"]}
+           for pid in ["C03", "C04", "C05", "C12", "C13", "C14", "C15", "C16", "C19"]}
